@@ -137,6 +137,7 @@ func runC09(r *Run) {
 			"cmp(<result>.signature == internal/jws.sign(?h, $2, $3))")
 	}
 	r.checkCurveTables(P)
+	r.checkLeftPad(P)
 	// --- size
 	if f := r.fn(P, pkgIJWS, "verifyECSignature"); f != nil {
 		b, ok := r.requireSucc(P+".size.ec", "a truncated or extended ECDSA signature must be rejected", f, core.Ctx{}, "",
@@ -252,4 +253,97 @@ func (r *Run) checkCurveTables(P string) {
 		}
 		r.R.Check(ok, P+".tables.signer.pad", "E13: signature = pad(r, k) ‖ pad(s, k) with one k", core.FuncName(f), r.where(f), "unequal or missing padding yields signatures the fixed-size verifier rejects for ~1/128 of keys/messages", det, "padding calls: "+det)
 	}
+}
+
+// checkLeftPad: the fixed-size coordinate buffer is the big-endian value left
+// padded with zero bytes (either append(make(n-len(d)), d...) or a copy into
+// buf[n-len(d):]); a right-padded coordinate is a different number.
+func (r *Run) checkLeftPad(P string) {
+	f := r.fn(P, pkgIJWS, "newFixedSizeBuffer")
+	if f == nil {
+		return
+	}
+	id := P + ".jwk.leftpad"
+	rule := "E5 shape: fixed-size coordinate = zero bytes of length (size − len(data)) followed by data"
+	why := "a secp256k1 coordinate with a leading zero byte that is padded on the wrong side (or not at all) decodes to another point, so a genuine signature is rejected under its own published key"
+	if len(f.Params) != 2 {
+		r.R.Unk(id, rule, core.FuncName(f), r.where(f), why, "unexpected signature")
+		return
+	}
+	ff := r.E.Facts(f, core.Ctx{})
+	data, length := f.Params[0], f.Params[1]
+	wantDiff := "($" + length.Name() + " - len($" + data.Name() + "))"
+	ok := false
+	det := "no store to the buffer's data"
+	nRet, nNil := 0, 0
+	for _, b := range f.Blocks {
+		for _, ins := range b.Instrs {
+			if ret, isR := ins.(*ssa.Return); isR {
+				nRet++
+				if c, isC := core.RetOp(ret, 0).(*ssa.Const); isC && c.Value == nil {
+					nNil++
+				}
+			}
+			st, isS := ins.(*ssa.Store)
+			if !isS {
+				continue
+			}
+			fa, isF := st.Addr.(*ssa.FieldAddr)
+			if !isF || fieldName(fa) != "data" {
+				continue
+			}
+			det = "data = " + ff.TB.Of(st.Val).String()
+			switch v := st.Val.(type) {
+			case *ssa.Call:
+				// append(make([]byte, n-len(d)), d...)
+				if isBuiltin(v, "append") && len(v.Common().Args) == 2 && v.Common().Args[1] == ssa.Value(data) {
+					if mk, isM := v.Common().Args[0].(*ssa.MakeSlice); isM {
+						l := ff.TB.Of(mk.Len).String()
+						det += " with make length " + l
+						ok = l == wantDiff
+					}
+				}
+			case *ssa.MakeSlice:
+				// buf := make([]byte, n); copy(buf[n-len(d):], d) and nothing else written to buf
+				if ff.TB.Of(v.Len).String() != "$"+length.Name() || v.Referrers() == nil {
+					continue
+				}
+				copies, other := 0, 0
+				for _, ref := range *v.Referrers() {
+					switch x := ref.(type) {
+					case *ssa.Slice:
+						low := ""
+						if x.Low != nil {
+							low = ff.TB.Of(x.Low).String()
+						}
+						isCopy := false
+						if x.Referrers() != nil {
+							for _, rr := range *x.Referrers() {
+								if c, isC := rr.(*ssa.Call); isC && isBuiltin(c, "copy") && c.Common().Args[0] == ssa.Value(x) && c.Common().Args[1] == ssa.Value(data) {
+									isCopy = true
+								}
+							}
+						}
+						if isCopy && low == wantDiff && x.High == nil {
+							copies++
+						} else {
+							other++
+							det += " slice [" + low + ":]"
+						}
+					case *ssa.Store:
+						if x.Val != ssa.Value(v) {
+							other++
+						}
+					case *ssa.Call:
+						other++
+						det += " passed to " + ff.TB.Of(x).String()
+					case *ssa.IndexAddr:
+						other++
+					}
+				}
+				ok = copies == 1 && other == 0
+			}
+		}
+	}
+	r.R.Check(ok && nNil == 0, id, rule, core.FuncName(f), r.where(f), why, det, det)
 }
